@@ -400,13 +400,14 @@ def c10f(ctx):
 
 def _carries_position(b, op):
     """The operand is a CurrentBatch aggregate built in this body whose expected_epoch field is read from an expected_epoch."""
-    og = df.origins_of_operand(b, op)
+    og = df.origins_of_operand(b, op, through_agg=False)
     aggs = [x for x in og if x.kind == "agg" and "CurrentBatch" in str(x.site.node["rv"].get("adt"))]
     if not aggs or len(aggs) != len(og):
         return False
     for x in aggs:
-        ops = x.site.node["rv"]["ops"]
-        if len(ops) != 3 or "expected_epoch" not in df.access_path(b, ops[2]):
+        rv = x.site.node["rv"]
+        fields = rv.get("fields") or []
+        if "expected_epoch" not in fields or "expected_epoch" not in df.access_path(b, rv["ops"][fields.index("expected_epoch")]):
             return False
     return True
 
